@@ -12,6 +12,7 @@ package tls
 // the harness CA before the first use of the system roots.
 
 import (
+	"crypto/x509"
 	"encoding/pem"
 	"errors"
 	"fmt"
@@ -56,6 +57,11 @@ func vf29TrustSetup() {
 		}
 		os.Setenv("SSL_CERT_FILE", file)
 		os.Setenv("SSL_CERT_DIR", empty)
+		// the system pool is loaded once per process: load it now, then the files are no longer needed
+		if pool, err := x509.SystemCertPool(); err != nil || pool == nil {
+			vf29Inconclusive(fmt.Sprintf("cannot load the substitute system pool: %v", err))
+		}
+		os.RemoveAll(dir)
 	})
 }
 
